@@ -20,4 +20,95 @@ theorem tri_step (m L : Nat) (h : 2 * L = m * (m - 1)) : 2 * (m + L) = (m + 1) *
     simp only [Nat.add_sub_cancel] at h
     nlinarith [h]
 
+/-- arithmetic core of "TSPLIB95's ATT rule is the ceiling": with `r = sqrt(A / B)`, `t = nint(r)` and
+`d = t + 1 if t < r else t`, `d` is characterised by `(d-1)² B < A ≤ d² B` -/
+theorem att_ceil_arith (A B d : ℕ) (hB : 0 < B) :
+    (∃ t, (t = d ∨ t + 1 = d) ∧
+        (4 * A < (2 * t + 1) * (2 * t + 1) * B ∧ (t = 0 ∨ (2 * t - 1) * (2 * t - 1) * B ≤ 4 * A)) ∧
+        d = if t * t * B < A then t + 1 else t) ↔
+      (A ≤ d * d * B ∧ (d = 0 ∨ (d - 1) * (d - 1) * B < A)) := by
+  constructor
+  · rintro ⟨t, htd, ⟨h1, h2⟩, h3⟩
+    rcases htd with rfl | rfl
+    · -- t = d
+      by_cases hlt : t * t * B < A
+      · simp [hlt] at h3
+      · refine ⟨by omega, ?_⟩
+        rcases t with _ | k
+        · exact Or.inl rfl
+        · right
+          rcases h2 with h2 | h2
+          · omega
+          · simp only [Nat.add_sub_cancel]
+            have e : 2 * (k + 1) - 1 = 2 * k + 1 := by omega
+            rw [e] at h2
+            nlinarith [h2, hB]
+    · -- t + 1 = d
+      by_cases hlt : t * t * B < A
+      · refine ⟨?_, Or.inr (by simpa using hlt)⟩
+        nlinarith [h1, hB]
+      · simp [hlt] at h3
+  · rintro ⟨h1, h2⟩
+    rcases d with _ | k
+    · have hA : A = 0 := by simpa using h1
+      subst hA
+      exact ⟨0, Or.inl rfl, ⟨by simpa using hB, Or.inl rfl⟩, by simp⟩
+    · have h2' : k * k * B < A := by
+        rcases h2 with h | h
+        · omega
+        · simpa using h
+      by_cases hc : 4 * A < (2 * k + 1) * (2 * k + 1) * B
+      · refine ⟨k, Or.inr rfl, ⟨hc, ?_⟩, by simp [h2']⟩
+        rcases k with _ | j
+        · exact Or.inl rfl
+        · right
+          have e : 2 * (j + 1) - 1 = 2 * j + 1 := by omega
+          rw [e]
+          nlinarith [h2', hB]
+      · refine ⟨k + 1, Or.inl rfl, ⟨?_, Or.inr ?_⟩, ?_⟩
+        · nlinarith [h1, hB]
+        · have e : 2 * (k + 1) - 1 = 2 * k + 1 := by omega
+          rw [e]; omega
+        · have : ¬ (k + 1) * (k + 1) * B < A := by omega
+          simp [this]
+
+/-- the characterisation of `nint(sqrt(A / B))` determines the value -/
+theorem nint_unique_arith (A B r r' : ℕ)
+    (h : 4 * A < (2 * r + 1) * (2 * r + 1) * B ∧ (r = 0 ∨ (2 * r - 1) * (2 * r - 1) * B ≤ 4 * A))
+    (h' : 4 * A < (2 * r' + 1) * (2 * r' + 1) * B ∧ (r' = 0 ∨ (2 * r' - 1) * (2 * r' - 1) * B ≤ 4 * A)) :
+    r = r' := by
+  have key : ∀ a b : ℕ, a < b → 4 * A < (2 * a + 1) * (2 * a + 1) * B →
+      (b = 0 ∨ (2 * b - 1) * (2 * b - 1) * B ≤ 4 * A) → False := by
+    intro a b hab h1 h2
+    rcases h2 with h2 | h2
+    · omega
+    · obtain ⟨k, rfl⟩ : ∃ k, b = k + 1 := ⟨b - 1, by omega⟩
+      have e : 2 * (k + 1) - 1 = 2 * k + 1 := by omega
+      rw [e] at h2
+      have hak : a ≤ k := by omega
+      have : (2 * a + 1) * (2 * a + 1) ≤ (2 * k + 1) * (2 * k + 1) := Nat.mul_le_mul (by omega) (by omega)
+      have := Nat.mul_le_mul_right B this
+      omega
+  rcases Nat.lt_trichotomy r r' with hlt | heq | hgt
+  · exact (key r r' hlt h.1 h'.2).elim
+  · exact heq
+  · exact (key r' r hgt h'.1 h.2).elim
+
+/-- the characterisation of `⌈sqrt(A / B)⌉` determines the value -/
+theorem ceil_unique_arith (A B r r' : ℕ)
+    (h : A ≤ r * r * B ∧ (r = 0 ∨ (r - 1) * (r - 1) * B < A))
+    (h' : A ≤ r' * r' * B ∧ (r' = 0 ∨ (r' - 1) * (r' - 1) * B < A)) : r = r' := by
+  have key : ∀ a b : ℕ, a < b → A ≤ a * a * B → (b = 0 ∨ (b - 1) * (b - 1) * B < A) → False := by
+    intro a b hab h1 h2
+    rcases h2 with h2 | h2
+    · omega
+    · have hak : a ≤ b - 1 := by omega
+      have : a * a ≤ (b - 1) * (b - 1) := Nat.mul_le_mul hak hak
+      have := Nat.mul_le_mul_right B this
+      omega
+  rcases Nat.lt_trichotomy r r' with hlt | heq | hgt
+  · exact (key r r' hlt h.1 h'.2).elim
+  · exact heq
+  · exact (key r' r hgt h'.1 h.2).elim
+
 end Tsplib
